@@ -203,6 +203,23 @@ def judge_factory(expr: str) -> Tuple[str, List[str], Optional[str]]:
     return "accepted", list(AUDIT), detail
 
 
+def judge_factory_explicit(expr: str) -> Tuple[str, Optional[str]]:
+    """Third entry point: the Python API of the sweep factory with the optional `expression_evaluator=` argument given
+    explicitly (a default evaluator, as a caller who only wants to share one would pass)."""
+    import verif_ext
+    from semantiva.data_processors.parametric_sweep_factory import ParametricSweepFactory, SequenceSpec
+    from semantiva.examples.test_utils import FloatDataCollection
+    from semantiva.utils.safe_eval import ExpressionEvaluator
+
+    try:
+        ParametricSweepFactory.create(element=verif_ext.VPairSource, element_kind="DataSource", collection_output=FloatDataCollection,
+                                      vars={"x": SequenceSpec([3.0]), "t": SequenceSpec([2.0])}, parametric_expressions={"a": expr},
+                                      expression_evaluator=ExpressionEvaluator())
+    except Exception as exc:
+        return "rejected", f"{type(exc).__name__}: {exc}"[:160]
+    return "accepted", None
+
+
 def replay_chunk(cases: List[Dict[str, Any]]):
     out = {"n": 0, "unrealisable": 0, "viol": [], "accepted": 0, "rejected": 0}
     for c in cases:
@@ -236,6 +253,11 @@ def replay_chunk(cases: List[Dict[str, Any]]):
             out["viol"].append((f"over-rejection:sweep-factory:{path}", f"{expr!r} uses only whitelisted syntax but the sweep factory rejected it: {fdetail}", {"expr": expr, "case": c}))
         if faudit:
             out["viol"].append((f"evaluation-escapes:sweep-factory:{path}", f"running a sweep over accepted {expr!r} raised audit events {faudit}", {"expr": expr}))
+        if not c["safe"]:
+            xverdict, _xd = judge_factory_explicit(expr)
+            if xverdict == "accepted":
+                out["viol"].append((f"accepted-forbidden:sweep-factory-api:via={hole_chain or 'root'}",
+                                    f"{expr!r} contains a non-whitelisted element ({path}) but ParametricSweepFactory.create(..., expression_evaluator=ExpressionEvaluator()) built a sweep with it", {"expr": expr, "case": c}))
     return out
 
 
@@ -245,10 +267,14 @@ ESCAPES = [
     "{1: 2}", "{1}", "x if x else __import__('sys')", "str(object=__import__('os').getcwd())", "globals()", "x @ t",
     "[64, 64]", "[]", "{}", "set()", "(1, [2, 3])", "{'mode': 'fast'}",
     "not x", "x is t", "x in (t,)", "~x", "x << 1", "print(x)", "type(x)", "x.__class__", "[x][0]", "abs.__self__",
+    "abs", "float", "str", "__builtins__", "(min if x else max)",       # a whitelisted function / an environment entry used as a VALUE
 ]
 HOSTS = ["{}", "abs({})", "max(x, {})", "round(x, ndigits={})", "str(object={})", "int({})", "(x + {})", "({} * t)", "(-{})",
          "(x if {} else t)", "({} if x else t)", "(x if t else {})", "(x < {})", "({} < x)", "(x and {})", "(x, {})",
-         "min(x, t, {})", "float(x={})", "bool({})", "(x ** {})", "(1 < x < {})"]
+         "min(x, t, {})", "float(x={})", "bool({})", "(x ** {})", "(1 < x < {})",
+         # the hole AFTER a call (of the very function the idiom may name): acceptance of a position must not depend on its siblings
+         "(abs(x), {})", "max(abs(x), {})", "(float(x) + abs(t), {})", "(x if abs(x) else {})", "(abs(x) and {})", "str(str(x), {})",
+         "(min(x, t), max(x, t), {})"]
 
 
 def corpus_check(run: core.Run) -> None:
@@ -267,12 +293,37 @@ def corpus_check(run: core.Run) -> None:
                 run.violation(f"accepted-forbidden:corpus:{pos}",
                               f"escape idiom {esc!r} planted in {pos!r} gives {expr!r}: {verdict}"
                               + (f", audit events during evaluation {audit}" if audit else ""), {"expr": expr})
+            xverdict, _xd = judge_factory_explicit(expr)
+            if xverdict != "rejected":
+                pos = host.replace("{}", "<hole>")
+                run.violation(f"accepted-forbidden:sweep-factory-api:corpus:{pos}",
+                              f"escape idiom {esc!r} planted in {pos!r} gives {expr!r}: ParametricSweepFactory.create(..., expression_evaluator=ExpressionEvaluator()) built a sweep with it", {"expr": expr})
             fverdict, faudit, _fd = judge_factory(expr)
             if fverdict != "rejected":
                 pos = host.replace("{}", "<hole>")
                 run.violation(f"accepted-forbidden:sweep-factory:corpus:{pos}",
                               f"escape idiom {esc!r} planted in {pos!r} gives {expr!r}: a parameter_sweep with this expression was built"
                               + (f", audit events while running it {faudit}" if faudit else ""), {"expr": expr})
+    # SCALE: the same idioms inside an expression too deep for a recursive walk (a generated sum of 700 terms, 400 nested
+    # negations): whatever the checker does then (reject, or give up with a RecursionError), it must not ACCEPT
+    deep_hosts = [" + ".join(["x"] * 700) + " + round(x, ndigits={})", " + ".join(["x"] * 700) + " + abs({})",
+                  "-(" * 400 + "str(object={})" + ")" * 400, "max(" * 300 + "{}" + ", x)" * 300]
+    for host in deep_hosts:
+        for esc in ESCAPES[:16]:
+            expr = host.format(esc)
+            try:
+                ast.parse(expr, mode="eval")
+            except (SyntaxError, RecursionError, MemoryError):
+                continue
+            n += 1
+            for entry, fn_ in (("evaluator", judge), ("sweep-factory", judge_factory)):
+                try:
+                    verdict = fn_(expr)[0]
+                except RecursionError:
+                    verdict = "other-error"
+                if verdict == "accepted":
+                    run.violation(f"accepted-forbidden:deep-expression:{entry}",
+                                  f"escape idiom {esc!r} inside an expression of {len(expr)} characters ({host[:24]}...): accepted by the {entry}", {"expr": expr})
     run.evaluations += n
     run.extra["escape_corpus_expressions"] = n
     # acceptance must depend on the declared variables of THIS compilation, whatever was compiled before
@@ -288,6 +339,16 @@ def corpus_check(run: core.Run) -> None:
                           "with {x, t}: 't' is not a declared variable", {"expr": expr})
         except ExpressionError:
             pass
+    # ... and whatever evaluators were CONSTRUCTED before: an evaluator with extra functions must not widen the default one
+    import math as _math
+    for before in (lambda: None, lambda: _EE(allowed_funcs={"sqrt": _math.sqrt, "hyp": _math.hypot})):
+        before()
+        for expr in ("sqrt(x)", "hyp(x, t)", "abs(sqrt(x))"):
+            run.evaluations += 1
+            for entry, verdict in (("evaluator", judge(expr)[0]), ("sweep-factory", judge_factory(expr)[0]), ("sweep-factory-api", judge_factory_explicit(expr)[0])):
+                if verdict == "accepted":
+                    run.violation(f"history:evaluator-with-extra-functions:{entry}", f"{expr!r} calls a function that is not on the whitelist; it was accepted by a DEFAULT "
+                                  f"evaluator ({entry}) after an evaluator with allowed_funcs={{sqrt, hyp}} had been constructed in the process", {"expr": expr})
     from semantiva.pipeline import Pipeline
     def sweep_cfg(names):
         return [{"processor": "VPairSource", "derive": {"parameter_sweep": {"parameters": {"a": "t * k"},
